@@ -364,7 +364,8 @@ func VString(v *ast.Value) string { panic("ghost") }
 //@ ensures[keys-a] err == nil ==> forallT(k, string, has(a, k) ==> has(result, k)) @props C03
 //@ ensures[keys-b] err == nil ==> forallT(k, string, has(b, k) && !hasprefix(k, "__") ==> has(result, k)) @props C03
 //@ ensures[keys-only] err == nil ==> forallT(k, string, has(result, k) ==> has(a, k) || (has(b, k) && !hasprefix(k, "__"))) @props C03
-//@ ensures[kind-clash-rejected] err == nil ==> forallT(k, string, has(a, k) && has(b, k) && !hasprefix(k, "__") && b[k].Name != "Node" ==> a[k].Kind == b[k].Kind) @props C05
+// (no exemption for Node: an object type called Node next to the Relay interface is a kind clash like any other, B35)
+//@ ensures[kind-clash-rejected] err == nil ==> forallT(k, string, has(a, k) && has(b, k) && !hasprefix(k, "__") ==> a[k].Kind == b[k].Kind) @props C05
 // C05/C03: a union declared by two services must have the same members in both
 //@ ensures[union-a-in-b] err == nil ==> forallT(k, string, has(a, k) && has(b, k) && !hasprefix(k, "__") && b[k].Name != "Node" && b[k].Kind == ast.Union ==> forall(i, 0, len(a[k].Types), inStrings(b[k].Types, a[k].Types[i]))) @using union-a @props C05 C03
 //@ ensures[union-b-in-a] err == nil ==> forallT(k, string, has(a, k) && has(b, k) && !hasprefix(k, "__") && b[k].Name != "Node" && b[k].Kind == ast.Union ==> forall(i, 0, len(b[k].Types), inStrings(a[k].Types, b[k].Types[i]))) @using union-b @props C05 C03
@@ -379,7 +380,7 @@ func VString(v *ast.Value) string { panic("ghost") }
 //@ loop 1 invariant[keys-a] forallT(k, string, has(a, k) ==> has(result, k)) @using keys-a, wf
 //@ loop 1 invariant[keys-b] forallT(k, string, seen(k) && !hasprefix(k, "__") ==> has(result, k)) @using keys-b, wf
 //@ loop 1 invariant[keys-only] forallT(k, string, has(result, k) ==> has(a, k) || (has(b, k) && seen(k) && !hasprefix(k, "__"))) @using keys-only, wf
-//@ loop 1 invariant[kinds] forallT(k, string, seen(k) && has(a, k) && !hasprefix(k, "__") && b[k].Name != "Node" ==> a[k].Kind == b[k].Kind) @using kinds, akeep, wf
+//@ loop 1 invariant[kinds] forallT(k, string, seen(k) && has(a, k) && !hasprefix(k, "__") ==> a[k].Kind == b[k].Kind) @using kinds, akeep, wf
 //@ loop 1 invariant[union-a] forallT(k, string, seen(k) && has(a, k) && !hasprefix(k, "__") && b[k].Name != "Node" && b[k].Kind == ast.Union ==> forall(i, 0, len(a[k].Types), inStrings(b[k].Types, a[k].Types[i]))) @using union-a, akeep, wf
 //@ loop 1 invariant[union-b] forallT(k, string, seen(k) && has(a, k) && !hasprefix(k, "__") && b[k].Name != "Node" && b[k].Kind == ast.Union ==> forall(i, 0, len(b[k].Types), inStrings(a[k].Types, b[k].Types[i]))) @using union-b, akeep, wf
 // (the two name lists built for interfaces are new arrays: nothing else changes while they are filled)
